@@ -119,7 +119,9 @@ def readers_choose_by_epoch(ctx, pfx):
                     # the fetched record must go through determine_node_to_get
                     if not any(term_is(t2, 'determine_node_to_get') for t2 in b.calls()):
                         bad.append('%s fetches a node record without determine_node_to_get' % base)
-    ctx.ob(pfx + '.EFFECT.node_fetchers', 'RF-EFFECT', not bad and n >= 3, TN, None,
+    # floor: the two selectors always; the cache-only walk (2 more call sites) exists with greedy_lookup_preload only
+    need = 3 if 'greedy_lookup_preload' in prog.features.get('akd', []) else 2
+    ctx.ob(pfx + '.EFFECT.node_fetchers', 'RF-EFFECT', not bad and n >= need, TN, None,
            'tree-node records are fetched only by the as-of-epoch selectors (%d call sites), each via determine_node_to_get' % n
            if not bad else 'tree-node record fetched outside the as-of-epoch selectors: %s' % bad, key='RF-EFFECT|node_fetchers')
     allowed_read = {TN + 'TreeNodeWithPreviousValue::determine_node_to_get', TN + '<TreeNodeWithPreviousValue as SizeOf>::size_of',
